@@ -148,7 +148,9 @@ func (c *CrashKV) apply(ops []kvop, batch bool) error {
 		if c.failIn == 0 {
 			c.mu.Unlock()
 			if c.tr != nil && !c.Quiet {
-				c.tr.Emit("KVFail", F{"node": c.node})
+				// which write was refused (same classification as for the writes that land)
+				what := summarize(c.node, 0, ops, batch)
+				c.tr.Emit("KVFail", F{"node": c.node, "kind": what["kind"], "h": what["h"], "key": what["key"]})
 			}
 			return ErrInjectedWrite
 		}
